@@ -16,6 +16,12 @@ VERIF = os.path.dirname(os.path.dirname(os.path.abspath(__file__)))
 FINDINGS = os.path.join(VERIF, "known_findings.json")
 
 
+# Layer B switches as the current code has them (each names a repaired deviation; the other value is the code before
+# the repair, kept so that TLC can show the deviation breaks the obligation)
+CODE = {"AndLeftTrueNeedsFalseSet": True,     # fix: a true left operand of a conjunction ...
+        "PreferWildcardB3": False}            # fix: IndexedCache.retrieve follows every matching branch
+
+
 def load_findings():
     if not os.path.exists(FINDINGS):
         return []
@@ -37,6 +43,7 @@ class Run:
         self.samples = []
         self.rejections = []          # (trace, rejection-list)
         self.drift = []               # Layer B (mechanism model) disagreements with the code
+        self.observations = {}        # behaviour outside the listed properties that disagrees with the specification
         self.event_counts = {}        # recorded events by kind
         self.violations = []          # replay paths
         self.known = []               # KNOWN-FINDING lines
@@ -122,7 +129,7 @@ class Run:
         for tr in traces:
             s = {k: v for k, v in tr.items() if not k.startswith("_") and k not in strip}
             slim.append(s)
-        consts = {"AndLeftTrueNeedsFalseSet": True, "PreferWildcardB3": True, "B3Judge": "obs"} if module == "TraceQuery" else None     # Layer B switch: the current code
+        consts = dict(CODE, B3Judge="obs") if module == "TraceQuery" else None     # Layer B switch: the current code
         rej, n = tlc.validate(module, slim, self.scratch, shards=self.workers, constants=consts)
         if count:
             self.traces_validated += n
@@ -177,6 +184,22 @@ class Run:
                 what = "; ".join(f"event {r['at']}: {r['clause']}" for r in v["rejections"][:3])
                 print(f"VIOLATION property={self.prop} replay={path}   [{what}]")
 
+    def observation(self, what, case, trace, rejections):
+        """The specification covers more of the system than the listed properties.  A recorded execution of such
+        behaviour that the specification rejects is reported (and a replay kept) but is no verdict on the property."""
+        o = self.observations.setdefault(what, {"count": 0, "clauses": {}, "replay": None})
+        o["count"] += 1
+        key = f"event {rejections[0]['at']}: {rejections[0]['clause']}"
+        o["clauses"][key] = o["clauses"].get(key, 0) + 1
+        if o["replay"] is None:
+            d = os.path.join(VERIF, "replays", self.prop)
+            os.makedirs(d, exist_ok=True)
+            o["replay"] = os.path.join(d, "observation-" + digest(case) + ".json")
+            with open(o["replay"], "w") as f:
+                json.dump({"property": self.prop, "family": "query", "observation": what,
+                           "case": {k: v for k, v in case.items() if not k.startswith("_")}, "trace": trace,
+                           "rejections": rejections}, f, indent=1)
+
     def known_finding(self, finding, detail=""):
         line = f"KNOWN-FINDING: property={self.prop} {finding['what']}"
         if line not in self.known:
@@ -196,6 +219,7 @@ class Run:
             "tlc_runs": self.mc_runs,
             "known_findings_reported": self.known,
             "recorded_events_by_kind": dict(sorted(self.event_counts.items())),
+            "beyond_the_listed_properties": self.observations,
             "layer_b": {"status": "drifted" if self.drift else "bound (no disagreement on this run)",
                         "disagreements": len(self.drift), "examples": self.drift[:3]},
             "notes": self.notes,
@@ -209,6 +233,9 @@ class Run:
             json.dump(ev, f, indent=1)
         shutil.rmtree(self.scratch, ignore_errors=True)
         self._write_violations()
+        for what, o in self.observations.items():
+            print(f"OBSERVATION: {o['count']} executions of behaviour outside the listed properties ({what}) disagree with "
+                  f"the specification {o['clauses']}; replay={o['replay']}; this is not a verdict on the property")
         if self.drift:
             kinds = sorted({d["clause"] for d in self.drift})
             print(f"MODEL-DRIFT: {len(self.drift)} traces disagree with the mechanism model (Layer B) {kinds}; "
